@@ -126,6 +126,7 @@ def parse_rvalue(s):
     mc = re.search(r' as (.+) \(PointerCoercion\(ReifyFnPointer', s)
     if mc and not s.startswith(('copy ', 'move ', 'const ')):
         return ('fnptr', s[:mc.start()].strip())
+    if s.startswith('&raw const (fake) '): return ('ref', parse_place(s[18:]))
     if s.startswith('&raw const '): return ('ref', parse_place(s[11:]))
     if s.startswith('&raw mut '): return ('ref', parse_place(s[9:]))
     if s.startswith('&mut '): return ('ref', parse_place(s[5:]))
@@ -299,6 +300,10 @@ def parse_mir(text):
                         parts = [p.strip() for p in split_top(joined, ';')]
                         f.blocks[cur] = parts
                 i += 1
+            if f.name in fns:
+                k = 1
+                while '%s#%d' % (f.name, k) in fns: k += 1
+                f.name = '%s#%d' % (f.name, k)
             fns[f.name] = f
         i += 1
     return fns
